@@ -45,6 +45,11 @@ func recSeq(o, k int) string {
 	if (o+2*k)%7 == 3 {
 		l = 60 * (1 + (o+k)%3) // exactly one, two or three full lines
 	}
+	if o >= 7 && (o*3+k)%7 == 5 {
+		// a record whose text is longer than the 4 KiB buffers of the formatters (9-16.5 kb: a mitogenome among
+		// amplicons); only in the recorded streams (the model's cases have at most 7 batches)
+		l = 9000 + 500*((o+k)%16)
+	}
 	b := make([]byte, l)
 	for i := range b {
 		b[i] = "acgt"[(i+o+2*k)%4]
